@@ -1,10 +1,11 @@
 #!/usr/bin/env python3
 import json,os,glob
-rows=[]; n=0; missed=[]
+rows=[]; n=0; missed=[]; undetected=[]
 for d in sorted(glob.glob('/verif/seeded/*/meta.json')):
     m=json.load(open(d)); name=os.path.basename(os.path.dirname(d)); n+=1
     det=m.get('detected_by') or {'check':'NOT DETECTED','signature':''}
-    if 'missed before' in det['check'] or det['check']=='NOT DETECTED' or 'strengthening' in m: missed.append(name)
+    if det['check']=='NOT DETECTED': undetected.append(name)
+    elif 'missed before' in det['check'] or 'strengthening' in m: missed.append(name)
     rows.append("| `%s` | %s | %s | %s `%s`%s |"%(name,m['property'],m['needs_to_manifest'].replace('|','/'),det['check'],det['signature'],('; '+m['also_detected_by']) if 'also_detected_by' in m else ''))
 open('/verif/seeded/README.md','w').write('''# Seeded changes
 
@@ -16,9 +17,9 @@ demonstration (`mutant_demo.rs`, an integration test that passes on the clean tr
 the agent's `AGENT_README.md`, and `meta.json`. `tools/try_mutant.sh <dir> [tier] [PROP..]` applies the patch to
 /repo, runs the checks and undoes it. None of these changes is ever committed in /repo.
 
-%d changes. %d were missed by the quick tier as first built and led to stronger checks (%s); all are caught now.
+%d changes. %d were missed by the quick tier as first built and led to stronger checks (%s); those are caught now. Not detected: %s (reason in the table).
 
 | change | property | needs, in order to manifest | caught by |
 |---|---|---|---|
-'''%(n,len(missed),', '.join('`%s`'%x for x in missed))+'\n'.join(rows)+'\n')
-print(n,'changes;',len(missed),'led to stronger checks')
+'''%(n,len(missed),', '.join('`%s`'%x for x in missed),', '.join('`%s`'%x for x in undetected) or 'none')+'\n'.join(rows)+'\n')
+print(n,'changes;',len(missed),'led to stronger checks;',len(undetected),'not detected')
